@@ -199,6 +199,49 @@ def run(ctx):
     except KeyError as e:
         ctx.lost("R14.4", str(e))
 
+    # membership answer: `contains(registry, asked address)` when the registry exists, false when it does not
+    try:
+        qa_m = arms.Arm(ix, IF, "IsVamm", entry="query")
+        asked = qa_m.msgfield("vamm")
+        badm = None
+        n_m = 0
+        for q in qa_m.ok_paths():
+            r_ = ix.inline(qa_m.s(sym.unwrap(q.ret)))
+            ans = ix.inline(sym.field(r_, "is_vamm"))
+            outs = ix.outcomes(ans) if tag(ans) == "call" and ix.call_target(ans) is not None else [(q, ans, {})]
+            for (p_, ret_, m_) in outs:
+                n_m += 1
+                rv = ix.inline(ret_)
+                exists = None
+                for (at, o, _b, _l) in p_.conds:
+                    a2 = ix.inline(sym.subst(at, m_)) if m_ else ix.inline(at)
+                    if tag(a2) == "op" and payload(a2)[0] == "is_some" and o in (True, False) and guards.loaded_item(ix, kids(a2)[0], IF) == LIST:
+                        exists = o
+                # `registry_opt.map(|r| r.contains(&x)).unwrap_or(false)`: the same answer in combinator form
+                if tag(rv) == "call" and str(payload(rv)[0]).split("::")[-1] == "unwrap_or" and len(kids(rv)) == 2 and \
+                        tag(ix.inline(kids(rv)[1])) == "bool" and not payload(ix.inline(kids(rv)[1]))[0]:
+                    inner = ix.inline(kids(rv)[0])
+                    if tag(inner) == "call" and str(payload(inner)[0]).split("::")[-1] == "map" and len(kids(inner)) == 2 and tag(kids(inner)[1]) == "closure":
+                        opt, clo = kids(inner)
+                        cf = w.by_pretty.get(payload(clo)[0])
+                        cps = [p2 for p2 in ix.ok_paths(cf)] if cf is not None else []
+                        if len(cps) == 1 and cf.arg_count == 2:
+                            mm = {sym.param(cf.key, 0, cf.param_name(0)): clo, sym.param(cf.key, 1, cf.param_name(1)): sym.unwrap(opt)}
+                            rv = ix.inline(sym.subst(cps[0].ret, mm))
+                            exists = True
+                if tag(rv) == "bool":
+                    if bool(payload(rv)[0]) or exists is not False:
+                        badm = badm or "the membership answer is the constant %s %s" % (bool(payload(rv)[0]), "when no registry is stored" if exists is False else "")
+                elif tag(rv) == "call" and str(payload(rv)[0]).endswith("contains") and len(kids(rv)) == 2:
+                    if not is_list(ix.inline(kids(rv)[0])) or asked not in set(sym.walk(ix.inline(kids(rv)[1]))):
+                        badm = badm or "the membership test is %s" % sym.show(rv, 4)[:160]
+                else:
+                    badm = badm or "the membership answer is %s" % sym.show(rv, 4)[:160]
+        ctx.inst("R14.4", "membership-answer:IsVamm", badm is None and n_m > 0, qa_m.fn.where(),
+                 badm or "%d outcomes: registry.contains(msg.vamm), false when no registry is stored" % n_m)
+    except KeyError as e:
+        ctx.lost("R14.4", str(e))
+
     # ---------------------------------------------------------------- R14.5
     try:
         a = arms.Arm(ix, IF, "ShutdownVamms")
